@@ -343,7 +343,11 @@ struct TemplateCore {
         while ((match = finder.GetMatch()) != 0U) {
             switch (match) {
                 case TagPatterns::LineEndID: {
-                    if (is_child && parent_storage.IsNotEmpty()) {
+                    // Only a super variable or an inline if that is the innermost open tag can be closed by '}'.
+                    const TagBit *owner = (parent_storage.IsNotEmpty() ? (*(parent_storage.Last()))->Last() : nullptr);
+
+                    if (is_child && (owner != nullptr) &&
+                        ((owner->GetType() == TagType::SuperVariable) || (owner->GetType() == TagType::InLineIf))) {
                         is_child = false;
                         storage  = *(parent_storage.Last());
                         parent_storage.Drop(SizeT{1});
